@@ -267,8 +267,9 @@ def run_property(prop: str, tier: str, seed: int = 0, only: Optional[str] = None
         "property_id": prop, "tier": tier, "seed": seed, "level": level, "coverage": coverage,
         "assumptions": meta.get("assumptions", []), "wall_s": round(wall, 2), "violations": violations,
     }
-    os.makedirs(os.path.join(VERIF, "evidence"), exist_ok=True)
-    with open(os.path.join(VERIF, "evidence", f"{prop}.json"), "w") as f:
+    evdir = os.environ.get("VF_EVIDENCE_DIR") or os.path.join(VERIF, "evidence")
+    os.makedirs(evdir, exist_ok=True)
+    with open(os.path.join(evdir, f"{prop}.json"), "w") as f:
         json.dump(ev, f, indent=1, default=repr)
     run.say(f"{prop} tier={tier}: obligations={n_obl} discharged={n_dis} inconclusive={len(inconclusive)} "
             f"violations={violations} paths={tot['paths']} solver_checks={tot['solver_checks']} wall={wall:.1f}s exit={exit_code}")
@@ -306,7 +307,7 @@ def replay_model(prop: str, o: Obl, r: Dict[str, Any]) -> Dict[str, Any]:
 
 
 def write_replay(prop: str, o: Obl, r: Dict[str, Any]) -> str:
-    d = os.path.join(VERIF, "replays", prop)
+    d = os.path.join(os.environ.get("VF_REPLAY_DIR") or os.path.join(VERIF, "replays"), prop)
     os.makedirs(d, exist_ok=True)
     params = dict(r.get("params") or {})
     params.pop("_exclude", None)
